@@ -7,6 +7,11 @@ STREAM_ASSUME = [
     "inputs and schedules are generated (exhaustive over the stated finite parts, seeded elsewhere), not all byte strings",
 ]
 
+TOK_ASSUME = [
+    "spec/Tok.tla is a faithful transcription of HTML Standard 13.2.5 over raw bytes (no CR/NUL normalisation, no character references), evaluated by TLC",
+    "the harness records handler arguments through the public getters only; identical (input, observation) pairs are judged once",
+]
+
 REGISTRY = {
     "C01": {
         "level": "model_checking",
@@ -25,5 +30,17 @@ REGISTRY = {
         "traces": [{"job": "c15", "module": "TraceStream", "cfg": "TraceStream.cfg", "timeout": 900, "timeout_thorough": 7200}],
         "mc": [],
         "assumptions": STREAM_ASSUME + ["absence of panics is explored, not proved; complexity is a wall-clock observation (ceiling 20 ms/KiB)"],
+    },
+    "C14": {
+        "level": "model_checking",
+        "traces": [{"job": "c14", "module": "TraceTok", "cfg": "TraceTok.cfg", "timeout": 1200, "timeout_thorough": 10800}],
+        "mc": [],
+        "assumptions": TOK_ASSUME,
+    },
+    "C16": {
+        "level": "model_checking",
+        "traces": [{"job": "c16", "module": "TraceTok", "cfg": "TraceTok.cfg", "timeout": 1200, "timeout_thorough": 10800}],
+        "mc": [],
+        "assumptions": TOK_ASSUME + ["string equality is decided for ASCII and (in UTF-8 documents) well-formed UTF-8 slices; other slices are compared by range only here and by witnessed decoding under C13"],
     },
 }
